@@ -23,11 +23,13 @@ def crate_for(repo):
 
 def src_hash(repo):
     h = hashlib.sha256()
-    for root in (os.path.join(repo, 'packages', 'margined_common', 'src'), os.path.join(KDIR, 'src')):
+    # content hash with paths relative to the tree: two trees with the same sources share results
+    for base, root in ((repo, os.path.join(repo, 'packages', 'margined_common', 'src')), (KDIR, os.path.join(KDIR, 'src'))):
         for dp, _, fs in sorted(os.walk(root)):
             for f in sorted(fs):
                 p = os.path.join(dp, f)
-                h.update(p.encode()); h.update(open(p, 'rb').read())
+                h.update(os.path.relpath(p, base).encode()); h.update(open(p, 'rb').read())
+    h.update(open(os.path.join(repo, 'Cargo.lock'), 'rb').read())
     return h.hexdigest()
 
 
